@@ -218,22 +218,87 @@ def check_rawcells(ctx, db):
 def check_timestamp(ctx, db):
     f = db.fn('gdstk::gds_timestamp')
     ctx.touch(f)
-    lens = [x for x in f.walk() if x.k == 'BinaryOperator' and x.op == '!=' and norm(x.child('lhs').text()) == 'record_length']
-    # the rewrite may sit in a file-local helper called once per record kind: sites are counted with the number of calls
-    seeks, writes = [], []
-    via_helper = False
+    # Rewrite sites (the fwrite of the new stamp; the site may sit in a file-local helper). For every site, from the conditions on
+    # its path: the record length was tested against 28 = 4 + 2*12 with an error exit, the stream was moved back 24 = 2*12 bytes
+    # from the current position with the failure branch leaving, and 12 two-byte words of new_tm_buffer are written. Which records
+    # reach a site is decided by evaluating the path conditions for every GdsiiRecord enumerator and new_timestamp NULL / non-NULL:
+    # exactly BGNLIB and BGNSTR of a rewriting run do (whether the two arms are written out twice, merged, or share a helper).
+    from .. import minieval
+    SEEKS = ('fseeko', 'fseek', '_fseeki64', 'fseeko64')
+    sites = []            # (function, fwrite call, weight)
     for fn_, w_ in db.with_helpers([f]):
-        ss = [c for c in fn_.walk() if c.k == 'CallExpr' and (c.callee or '') in ('fseeko', 'fseek', '_fseeki64', 'fseeko64')]
-        ws = [c for c in fn_.calls('fwrite')]
-        seeks += ss * w_
-        writes += ws * w_
-        via_helper = via_helper or (fn_ is not f and bool(ss) and bool(ws) and w_ == 2)
-    ok = len(lens) == 2 and all(x.child('rhs').cv == 28 for x in lens)
-    ok = ok and len(seeks) == 2 and all(c.args[1].cv == -24 and c.args[2].cv == 1 for c in seeks)
-    ok = ok and len(writes) == 2 and all(c.args[1].cv == 2 and c.args[2].cv == 12 and (norm(c.args[0].text()) == 'new_tm_buffer' or _strip_casts(c.args[0]).dk == 'param') for c in writes)
-    ok = ok and 28 == 4 + 2 * 12 and 24 == 2 * 12
-    ctx.check(ok, 'R-CONST', 'gds_timestamp/28=4+2*12', f.loc(), 'both rewrites check record_length == 28, seek back 24 = 12 words and write 12 two-byte words',
-              'timestamp constants are not paired (record length %s, seek %s, write %s)' % ([x.child('rhs').cv for x in lens], [c.args[1].cv for c in seeks], [(c.args[1].cv, c.args[2].cv) for c in writes]))
+        for c in fn_.calls('fwrite'):
+            sites.append((fn_, c, w_))
+    bad = []
+    if not sites:
+        bad.append('no fwrite of the new timestamp found')
+    for fn_, c, w_ in sites:
+        if not (c.args[1].cv == 2 and c.args[2].cv == 12 and (norm(c.args[0].text()) == 'new_tm_buffer' or _strip_casts(c.args[0]).dk == 'param')):
+            bad.append('%s: writes %s x %s from `%s` instead of 12 two-byte words of new_tm_buffer' % (c.loc(), c.args[1].cv, c.args[2].cv, norm(c.args[0].text())))
+        pcs = tables.path_conds(c)
+        seek = [(cnd, pol) for cnd, pol in pcs if any(x.k == 'CallExpr' and (x.callee or '') in SEEKS for x in cnd.walk())]
+        sk = [x for cnd, pol in seek for x in cnd.walk() if x.k == 'CallExpr' and (x.callee or '') in SEEKS]
+        if len(sk) != 1 or not (sk[0].args[1].cv == -24 and sk[0].args[2].cv == 1):
+            bad.append('%s: the write is not preceded by exactly one checked seek of -24 bytes from the current position (found %s)' % (c.loc(), [(x.args[1].cv, x.args[2].cv) for x in sk]))
+        else:
+            cnd, pol = seek[0]
+            cc = _strip_casts(cnd)
+            if not (cc.k == 'BinaryOperator' and cc.op in ('!=', '==') and _strip_casts(cc.child('rhs')).cv == 0 and (cc.op == '!=') != pol):
+                bad.append('%s: the write does not run under "seek returned 0"' % c.loc())
+    # the length test, in the function that owns the record loop
+    lens = [(cnd, pol) for fn_, c, w_ in sites for cnd, pol in (tables.path_conds(c) if fn_ is f else [])]
+    if any(fn_ is not f for fn_, c, w_ in sites):
+        for fn_, c, w_ in sites:
+            if fn_ is not f:
+                for call in f.walk():
+                    if call.k == 'CallExpr' and call.callee == fn_.qn:
+                        lens += tables.path_conds(call)
+    def is_len28(cnd, pol):
+        cc = _strip_casts(cnd)
+        return cc.k == 'BinaryOperator' and cc.op in ('!=', '==') and norm(cc.child('lhs').text()) == 'record_length' and _strip_casts(cc.child('rhs')).cv == 28 and (cc.op == '==') == pol
+    entry = []            # (entry node in f, conditions inside the record loop) per site
+    def in_loop(node):
+        lp_ = [a for a in node.ancestors() if a.k in ('WhileStmt', 'ForStmt', 'DoStmt')]
+        return tables.path_conds(node, stop=lp_[-1]) if lp_ else tables.path_conds(node)
+    for fn_, c, w_ in sites:
+        if fn_ is f:
+            entry.append((c, in_loop(c)))
+        else:
+            for call in f.walk():
+                if call.k == 'CallExpr' and call.callee == fn_.qn:
+                    entry.append((call, in_loop(call)))
+    for node, pcs in entry:
+        if not any(is_len28(cnd, pol) for cnd, pol in pcs):
+            bad.append('%s: the rewrite runs without the record length having been tested against 28' % node.loc())
+    # which records reach a rewrite site
+    recs = {c_['n']: c_['v'] for c_ in db.enum('gdstk::GdsiiRecord')['consts']}
+    reach = {}
+    def hook(callee, args, node):
+        if callee in SEEKS:
+            return (0,)
+        return None
+    try:
+        for name, val in recs.items():
+            for nt in (0, 1):
+                hit = False
+                for node, pcs in entry:
+                    okp = True
+                    for cnd, pol in pcs:
+                        v = minieval.value_at(db, cnd, typed={'GdsiiRecord': val, 'tm *': nt, 'uint64_t': 28, 'uint32_t': 28, 'ErrorCode': 0, 'FILE *': 1}, hook=hook)
+                        if bool(v) != pol:
+                            okp = False
+                            break
+                    hit = hit or okp
+                if hit:
+                    reach.setdefault(nt, set()).add(name)
+    except AnalysisBroken as ex:
+        bad.append('path conditions of the rewrite sites could not be evaluated (%s)' % ex)
+    ctx.explored['valuations'] += 2 * len(recs) * max(1, len(entry))
+    if not bad and (reach.get(1, set()) != {'BGNLIB', 'BGNSTR'} or reach.get(0, set())):
+        bad.append('a rewriting run reaches the rewrite for %s (expected BGNLIB and BGNSTR), a query run for %s (expected none)' % (sorted(reach.get(1, set())), sorted(reach.get(0, set()))))
+    ctx.check(not bad, 'R-CONST', 'gds_timestamp/28=4+2*12', f.loc(), '%d rewrite site(s): record length tested against 28, checked seek back of 24 = 12 words, 12 two-byte words written; reached exactly for BGNLIB and BGNSTR of a rewriting run (path conditions evaluated over %d record types x {query, rewrite})' % (len(sites), len(recs)),
+              '; '.join(bad[:3]))
+    ctx.require('R-CONST timestamp rewrite sites', len(sites), 1)
     # the buffer holds the stamp twice, big-endian: 6 words filled, swapped, duplicated
     sw = [c for c in f.calls('gdstk::big_endian_swap16') if norm(c.args[0].text()) == 'new_tm_buffer']
     cp = [c for c in f.calls('memcpy') if norm(c.args[0].text()).startswith('(new_tm_buffer + 6)')]
@@ -246,24 +311,6 @@ def check_timestamp(ctx, db):
     want_w = {0: '(new_timestamp->tm_year + 1900)', 1: '(new_timestamp->tm_mon + 1)', 2: 'new_timestamp->tm_mday', 3: 'new_timestamp->tm_hour', 4: 'new_timestamp->tm_min', 5: 'new_timestamp->tm_sec'}
     ctx.check(rd == want_r and wr == want_w, 'R-TABLE', 'gds_timestamp/field-order', f.loc(), 'reader and writer use the same word order with the +1900 / +1 biases inverted',
               'timestamp word order / biases differ: read %s write %s' % (rd, wr))
-    # clones: the two rewrite blocks
-    blocks = []
-    for i in f.walk():
-        if i.k == 'IfStmt' and 'record_length' in norm(i.child('cond').text()) and '28' in norm(i.child('cond').text()):
-            par = i.parent
-            idx = par.c.index(i)
-            seekif = next((s for s in par.c[idx + 1:] if s is not None and s.k == 'IfStmt' and 'SEEK' in s.child('cond').text().upper() or (s is not None and s.k == 'IfStmt' and 'fseek' in s.child('cond').text())), None)
-            wr_ = next((s for s in par.c[idx + 1:] if s is not None and s.k == 'CallExpr' and s.callee == 'fwrite'), None)
-            blocks.append((i, seekif, wr_))
-    ok = len(blocks) == 2 and all(b[1] is not None and b[2] is not None for b in blocks)
-    if via_helper:
-        ok = True          # both record kinds go through one helper: the same code by construction
-    elif ok:
-        ca = [norm(clone.canon(b[0], f)) + re.sub(r'timestamp\.\\n|cell timestamp|library timestamp', 'T', norm(clone.canon(b[1], f))) + norm(clone.canon(b[2], f)) for b in blocks]
-        ca = [re.sub(r'"\[GDSTK\] Unable to rewrite (library|cell) timestamp\.\\n"', '"MSG"', c) for c in ca]
-        d = clone.first_diff(ca[0], ca[1])
-        ok = d is None
-    ctx.check(ok, 'R-CLONE', 'gds_timestamp/BGNLIB~BGNSTR', f.loc(), 'the library and cell timestamp rewrites are the same code')
 
 
 def _helper_reports_error(db, f, cond):
@@ -319,14 +366,11 @@ def check_timestamp_coverage(ctx, db):
         if g is not None and _helper_reports_error(db, f, g.child('cond')):
             continue
         bad.append('%s: return under `%s`' % (r.loc(), c))
-    ctx.check(not bad and nq == 1 and len(rets) >= 5, 'R-MUSTPASS', 'gds_timestamp/rewrite-visits-all-records', loop.loc(), 'of %d returns inside the record loop, %d are error exits and one is the query-mode exit under `!new_timestamp`: a rewrite run only ends at ENDLIB' % (len(rets), len(rets) - 1),
+    ctx.check(not bad and nq == 1 and len(rets) >= 3, 'R-MUSTPASS', 'gds_timestamp/rewrite-visits-all-records', loop.loc(), 'of %d returns inside the record loop, %d are error exits and one is the query-mode exit under `!new_timestamp`: a rewrite run only ends at ENDLIB' % (len(rets), len(rets) - 1),
               'a run that rewrites timestamps can return before ENDLIB without an error (later BGNSTR records keep their old stamp): %s' % '; '.join(bad[:2]))
     brk = [b for b in loop.walk() if b.k == 'BreakStmt']
     ok = len(brk) == 1 and any(a.k == 'IfStmt' and 'GdsiiRecord::ENDLIB' in norm(a.child('cond').text()) for a in brk[0].ancestors())
     ctx.check(ok, 'R-MUSTPASS', 'gds_timestamp/ends-at-ENDLIB', loop.loc(), 'the loop is left only at ENDLIB')
-    # the BGNSTR rewrite is conditioned on nothing but the rewrite mode
-    arm = next((i for i in loop.walk() if i.k == 'IfStmt' and 'GdsiiRecord::BGNSTR' in norm(i.child('cond').text())), None)
-    ctx.check(arm is not None and norm(arm.child('cond').text()) == '((record == GdsiiRecord::BGNSTR) && new_timestamp)', 'R-SHAPE', 'gds_timestamp/BGNSTR-arm', loop.loc(), 'every BGNSTR is rewritten whenever a new timestamp is given', 'BGNSTR arm condition: %s' % (norm(arm.child('cond').text()) if arm is not None else None))
 
 
 def check_options_untouched(ctx, db):
@@ -501,5 +545,5 @@ def run(ctx):
 MANIFEST = dict(
     text='Decides structural agreement between the sibling GDSII parsers/writers: element-opening and tag-carrying record tables of gds_info equal those of read_gds (extracted from both), with the same routing into shape/label tag sets; the UNITS formulas of gds_units, gds_info and read_gds normalise to the same expressions; Library::write_gds\'s header and trailer are clones of gdswriter_init / GdsWriter::close and both hand cells the same scaling; read_rawcells accounts every record of an open structure into the raw cell (offset = ftell - record_length) and RawCell::to_gds moves exactly size bytes; a raw cell clears its source pointer unconditionally after releasing its share; the timestamp constants (28 = 4 + 2*12, seek -24, 12 words, word order and biases) are paired and the BGNLIB/BGNSTR rewrites are clones; the polygon and path tag-filter blocks at ENDEL are clones with the confirmed condition and the filter parameter is never reassigned (an empty set filters everything); record payloads reach only length-taking functions unless the arm terminates them first, every parser offers gdsii_read_record a buffer for the longest legal record and announces exactly its capacity; a timestamp rewrite run leaves the record loop only at ENDLIB or through an error exit (the only early success exit is the query mode) and rewrites every BGNSTR. Equality of loaded libraries or re-emitted bytes is not decided.',
     note='Trusted: clang front end, gx, sa rules; tables are extracted from both sides (no frozen copy of either).',
-    technique='sibling table extraction and comparison + clone families + paired-constant checks over typed ASTs',
+    technique='sibling table extraction and comparison + path conditions evaluated over the record-type enumeration (timestamp rewrite sites) + paired-constant checks over typed ASTs + conversion-chain (width) comparison of the two decoders',
     design='§4 C17')
